@@ -42,6 +42,9 @@ func main() {
 	manifest := flag.Bool("manifest", false, "write MANIFEST.json from the registry and exit")
 	noEvidence := flag.Bool("no-evidence", false, "do not write evidence (self-validation runs)")
 	flag.Parse()
+	if *tier == "thorough" {
+		wideTables = true // decision tables over one more value per integer quantity
+	}
 
 	if *list {
 		ids := sortedIDs()
